@@ -106,6 +106,68 @@ def hashq(q):
     """the hash of the rational number q: CPython hashes equal numbers of int / Fraction / float type equally"""
     return hash(Fraction(q))
 
+def abstract(name, native_fn, *args):
+    """
+    abstract predicate `name` over scalars and (abstract) objects: natively `native_fn(*args)`
+    decides it on the real objects; symbolically it is an uninterpreted Bool function of the
+    arguments (objects contribute their identity), so a contract that mentions it holds for
+    every interpretation, i.e. for every concrete context family.
+    """
+    return bool(native_fn(*args))
+
+
+def abstract_int(name, native_fn, *args):
+    """as `abstract`, but an int-valued function"""
+    return int(native_fn(*args))
+
+
+# ---------------------------------------------------------------------------
+# FPy dialect (C20): native meaning on real fpy2 objects; pyvc/fpydialect.py gives the symbolic one
+
+def fpy_val(x):
+    """exact real value of an FPy result (Float -> Fraction); tuples elementwise; booleans unchanged"""
+    if isinstance(x, tuple):
+        return tuple(fpy_val(v) for v in x)
+    if isinstance(x, bool):
+        return x
+    if hasattr(x, 'as_rational'):
+        return x.as_rational()
+    return Fraction(x)
+
+
+def fpy_rnd(ctx, v):
+    """rnd(ctx, v): the exact real v rounded once under ctx (finite results only)"""
+    r = ctx.round(Fraction(v))
+    if r.is_nar():
+        raise ValueError('fpy_rnd: non-finite rounded result')
+    return r.as_rational()
+
+
+def fpy_finite(ctx, v):
+    """is rnd(ctx, v) finite?  (symbolically: values are finite reals, so True)"""
+    try:
+        return not ctx.round(Fraction(v)).is_nar()
+    except (ValueError, OverflowError):
+        return False
+
+
+def fpy_rne(v, digits):
+    """v rounded to nearest-even at `digits` significant binary digits, unbounded exponent"""
+    import fpy2 as fp
+    return fp.MPFloatContext(int(digits), fp.RM.RNE).round(Fraction(v)).as_rational()
+
+
+def fpy_operand(m, e):
+    return Fraction(m) * Fraction(2) ** e
+
+
+def fpy_pow2(n):
+    return Fraction(2) ** int(Fraction(n))
+
+
+def fpy_is_int(v):
+    return Fraction(v).denominator == 1
+
 
 GHOST = {}
 
